@@ -558,6 +558,21 @@ pub fn gen_string(rg: &mut Rg, cfg: &GenCfg) -> EnumSpec {
         v.groups = layout(rg, attrs, keep_order);
         e.variants.push(v);
     }
+    // a wide tuple variant: positional placeholders with two-digit indices
+    if cfg.allow_placeholders && rg.chance(1, 4) {
+        let nf = rg.range(10, 13);
+        let mut v = VariantSpec::unit(&format!("Wide{}", nf));
+        v.kind = Kind::Tuple;
+        v.fields = (0..nf).map(|_| FieldSpec { name: None, ty: FieldTy::U8, default_with: false }).collect();
+        let mut order: Vec<usize> = (0..nf).collect();
+        if rg.chance(1, 2) {
+            rg.shuffle(&mut order);
+        }
+        let lit: Vec<String> = order.iter().map(|i| format!("{{{}}}", i)).collect();
+        v.groups = vec![vec![VAttr::ToString(lit.join(*rg.pick(&[" ", ",", "-", ""])))]];
+        let at = rg.range(0, e.variants.len());
+        e.variants.insert(at, v);
+    }
     // braces in non-placeholder literals confuse Display's placeholder scanner: only C17 plays with them
     use_generics(&mut e);
     repair_spellings(&mut e);
